@@ -36,10 +36,15 @@ claim("C18", "proof", "contract-based frame verification by a modular effect ana
       "DESIGN.md section 5 C18")
 claim("C20", "proof", T1 + " (token-stream ghost state; lenient abstraction of non-token code); " + T2,
       "Proved (T1): every while loop of the NEXUS reader and NexusTokenizer.skip_to_semicolon makes progress on the measure "
-      "(tokens left) + (0 if eof else 1) -- no input can hang them; no method is called on a token that may be None; every raise statement of the "
+      "(tokens left) + (0 if eof else 1) -- no input can hang them; the NEWICK recursive descent (NewickReader._parse_tree_statement, "
+      "_parse_tree_node_description incl. its unbounded `for count in it.count()` loop, tree_iter, the one-tree-at-a-time iterator) makes "
+      "progress in every loop and recurses only on a strictly smaller measure, and a statement is completed / a tree returned only after a "
+      "token was consumed; no method is called on a token that may be None; every raise statement of the "
       "reader modules is of the DataParseError family. Bounded (T2): every truncation and single edit of valid documents, all four formats.",
-      "tokenizer primitives (next_token*, require_next_token*, is_eof) are ASSUMED contracts validated at run time; non-token code is abstracted "
-      "(assumed to terminate and to raise only parse errors); Newick recursive descent, PHYLIP/FASTA readers and recursion depth are bounded only",
+      "tokenizer primitives (constructor, next_token*, require_next_token*, is_eof, comment pulls) are ASSUMED contracts validated at run time; "
+      "non-token code is abstracted (assumed to terminate and to raise only parse errors -- four internal errors found there by the bounded part "
+      "were repaired); well-founded recursion is the mathematical statement, Python's recursion limit (recorded finding) and the PHYLIP/FASTA "
+      "readers are bounded only",
       "DESIGN.md section 5 C20")
 
 claim("C03", "proof", T1 + " (theory B: exact reference lists + ghost position/owner maps); " + T2,
@@ -107,13 +112,18 @@ claim("C11", "proof", T1 + " (dictionaries as maps, loops over dictionaries and 
       "proved contract restated over the accession dictionary; `for nd in tree` visits the ghost list g_nodes (every node once: C15, bounded-exhaustive there); "
       "list-wide closure of the other trees of a TreeList, label clauses, DataSet and TreeArray are bounded only",
       "DESIGN.md section 5 C11, section 9")
-claim("C12", "exploration", T2,
-      "Bounded: every copy route x shapes <= 4 (thorough 5) x decorations: canonical-dump equality, heap separation by walking __dict__/containers, mutation battery both ways, "
-      "bound annotations follow the copy.",
-      "copy.deepcopy internals are stdlib/C (DESIGN.md section 6)", "DESIGN.md section 5 C12")
-claim("C13", "exploration", T2,
-      "Bounded: generated corpus (<= 2 TREES blocks x <= 3 statements x TRANSLATE/comments/weights/rooting tokens) in Newick/NEXUS/NeXML: every reading route against TreeList.get.",
-      "relates whole parsers (DESIGN.md section 6); two recorded known findings", "DESIGN.md section 5 C13")
+claim("C12", "exploration", T2 + "; a small T1 part (dispatch on the AST; the deepcopy memo of a scoped copy as a dictionary held in a parameter, z3)",
+      "Bounded (deciding): every copy route x shapes <= 4 (thorough 5) x decorations: canonical-dump equality, heap separation by walking __dict__/containers, mutation battery both ways, "
+      "bound annotations follow the copy. Discharged (T1, not what the level is claimed for): clone(0/1/2) dispatch to copy.copy / taxon_namespace_scoped_copy / copy.deepcopy and "
+      "anything else raises TypeError; the scoped copies of Tree, TreeList and CharacterMatrix fill a fresh memo from their own namespace and copy with that memo; "
+      "populate_memo_for_taxon_namespace_scoped_copy enters the namespace and EVERY taxon as standing for itself and keeps the other entries.",
+      "copy.copy / copy.deepcopy are stdlib/C, ASSUMED to their documented contracts (memo semantics); id() injective on live objects", "DESIGN.md section 5 C12")
+claim("C13", "exploration", T2 + "; a small T1 part (AST obligations, no solver) for the source-kind clause",
+      "Bounded (deciding): generated corpus (<= 2 TREES blocks x <= 3 statements x TRANSLATE/comments/weights/rooting tokens) in Newick/NEXUS/NeXML, CR / CR+LF variants, "
+      "character documents: every reading route against TreeList.get / DataSet.get. Discharged on the AST (T1, source-kind clause only, not what the level is claimed for): "
+      "get_from_/read_from_ stream, path and string reach one stream function per class family with the same schema and keyword arguments, and a path and a string are both "
+      "read through universal-newlines text streams.",
+      "relates whole parsers (DESIGN.md section 6); one recorded known finding; open()/StringIO line-end translation ASSUMED as documented", "DESIGN.md section 5 C13")
 claim("C14", "proof", T1 + " (heap theory B, bit masks as sets, Python iterators as (list snapshot, position), the **kwargs dictionary with literal keys); " + T2,
       "Proved (T1, MRCA clause): for tree.mrca(leafset_bitmask=q, is_bipartitions_updated=True) on an encoded tree the result is None exactly when q is not contained in the "
       "seed node's mask; otherwise the returned node's mask contains q and no child of it does (the deepest node over the taxa), on each of the three ways the search loop "
@@ -142,7 +152,8 @@ claim("C19", "proof", T1 + " (dictionaries as maps with object allocation for th
       "NEW object of the argument's row length sharing nothing with the argument, the argument keeps its rows, objects and lengths, rows never share a sequence object, and "
       "TaxonNamespaceIdentityError is raised exactly when the namespaces are different objects; CharacterDataSequence.__init__ / extend lengths. "
       "Proved (T1, termination): set_at; every while loop of charmatrixmodel.py can change its guard or leave; the concatenate label loop (step + frame obligations, "
-      "Lean lemma injective_escapes_finite). Bounded (T2): cell contents, padding (fill/pack), column selection, concatenation, remove/discard/keep_sequences, "
-      "the self-as-argument case, wall-clock guards.",
+      "Lean lemma injective_escapes_finite). Proved (T1, removals): remove_sequences / discard_sequences leave exactly the rows not named and keep_sequences exactly the rows named "
+      "(any iterable of taxa, absent and repeated taxa included), every remaining row keeps its sequence object and length; discard_sequences never raises. "
+      "Bounded (T2): cell contents, padding (fill/pack), column selection, concatenation, the self-as-argument case, wall-clock guards.",
       "a sequence is modelled by the length of its value list; `self.__class__.character_sequence_type` is read as a CharacterDataSequence class (AST obligation over every assignment); "
       "guard-progress is a necessary condition only; injectivity of the '%s_%03d' label format in the counter is an arithmetic assumption", "DESIGN.md section 5 C19, section 9")
